@@ -59,11 +59,11 @@ def sIsDir (m : Nat) : Bool := (m &&& 0o170000) == 0o040000
 
 /-- `zinfo.external_attr` as `_add_file` sets it -/
 def addFileAttr (stMode : Nat) : Nat :=
-  let a := ((Gen.normalizeFilePermissions stMode) &&& 0xFFFF) <<< 16
-  if sIsDir stMode then a ||| 0x10 else a
+  let a := ((Gen.normalizeFilePermissions stMode) &&& Gen.wheelAttrMask) <<< Gen.wheelAttrShift
+  if sIsDir stMode then a ||| Gen.wheelDirFlag else a
 
 /-- `zi.external_attr` as `_write_to_zip` sets it -/
-def writeAttr : Nat := (0o644 &&& 0xFFFF) <<< 16
+def writeAttr : Nat := (Gen.wheelWriteMode &&& Gen.wheelWriteMask) <<< Gen.wheelWriteShift
 
 def step (s : St) : Op → St
   | .addFile p m d n =>
@@ -87,10 +87,52 @@ def csvField (s : String) : String :=
 
 def csvLine (fields : List String) : String := joinWith "," (fields.map csvField) ++ "\n"
 
-/-- `(path, f"sha256={hash}", size)` -/
-def recordRow (r : Rec) : List String := [r.1, "sha256=" ++ r.2.1, toString r.2.2]
+/-! #### reading RECORD back: `csv.reader` (excel dialect, non-strict) as a state machine over the text -/
 
-def recordPath (distInfo : String) : String := distInfo ++ "/RECORD"
+/-- reader states of a `csv.reader` (excel dialect, non-strict) -/
+inductive CsvSt where
+  | start | unq | quo | qq
+deriving DecidableEq, Repr
+
+/-- `csv.reader` over the whole text: `cur` = field so far (reversed), `row` = fields so far (reversed),
+`acc` = rows so far (reversed) -/
+def csvGo : CsvSt → List Char → List (List Char) → List (List (List Char)) → List Char → List (List (List Char))
+  | st, cur, row, acc, [] =>
+    if st == .start && row.isEmpty && cur.isEmpty then acc.reverse else ((cur.reverse :: row).reverse :: acc).reverse
+  | .start, cur, row, acc, c :: cs =>
+    if c == '"' then csvGo .quo cur row acc cs
+    else if c == ',' then csvGo .start [] (cur.reverse :: row) acc cs
+    else if c == '\n' then csvGo .start [] [] ((cur.reverse :: row).reverse :: acc) cs
+    else csvGo .unq (c :: cur) row acc cs
+  | .unq, cur, row, acc, c :: cs =>
+    if c == ',' then csvGo .start [] (cur.reverse :: row) acc cs
+    else if c == '\n' then csvGo .start [] [] ((cur.reverse :: row).reverse :: acc) cs
+    else csvGo .unq (c :: cur) row acc cs
+  | .quo, cur, row, acc, c :: cs =>
+    if c == '"' then csvGo .qq cur row acc cs else csvGo .quo (c :: cur) row acc cs
+  | .qq, cur, row, acc, c :: cs =>
+    if c == '"' then csvGo .quo ('"' :: cur) row acc cs
+    else if c == ',' then csvGo .start [] (cur.reverse :: row) acc cs
+    else if c == '\n' then csvGo .start [] [] ((cur.reverse :: row).reverse :: acc) cs
+    else csvGo .unq (c :: cur) row acc cs
+
+def csvParse (text : List Char) : List (List (List Char)) := csvGo .start [] [] [] text
+
+/-- renderer on character lists (same as `csvField`/`csvLine`) -/
+def csvFieldC (cs : List Char) : List Char :=
+  if cs.any csvSpecial then '"' :: csvEscape cs ++ ['"'] else cs
+
+def csvRowC : List (List Char) → List Char
+  | [] => ['\n']
+  | [f] => csvFieldC f ++ ['\n']
+  | f :: fs => csvFieldC f ++ (',' :: csvRowC fs)
+
+def csvTextC (rows : List (List (List Char))) : List Char := (rows.map csvRowC).flatten
+
+/-- `(path, f"sha256={hash}", size)` -/
+def recordRow (r : Rec) : List String := [r.1, Gen.recordHashPrefix ++ r.2.1, toString r.2.2]
+
+def recordPath (distInfo : String) : String := distInfo ++ Gen.recordSuffix
 
 /-- the rows `_write_record` hands to the csv writer -/
 def recordRows (distInfo : String) (records : List Rec) : List (List String) :=
@@ -131,11 +173,11 @@ def distNameChars (cs : List Char) : List Char := cs.map fun c => if c == '-' th
 
 /-- `"-".join(tag)` in the branch without a build script -/
 def tagChars (supportsPy2 : Bool) : List Char :=
-  (if supportsPy2 then "py2.py3".toList else "py3".toList) ++ "-none-any".toList
+  (if supportsPy2 then Gen.tagPy2.toList else Gen.tagPy3.toList) ++ Gen.tagAbiPlatform.toList
 
-def wheelFilenameChars (dn ver tag : List Char) : List Char := dn ++ ('-' :: (ver ++ ('-' :: (tag ++ ".whl".toList))))
-def distInfoChars (dn ver : List Char) : List Char := dn ++ ('-' :: (ver ++ ".dist-info".toList))
-def dataFolderChars (dn ver : List Char) : List Char := dn ++ ('-' :: (ver ++ ".data".toList))
+def wheelFilenameChars (dn ver tag : List Char) : List Char := dn ++ ('-' :: (ver ++ ('-' :: (tag ++ Gen.wheelFileSuffix.toList))))
+def distInfoChars (dn ver : List Char) : List Char := dn ++ ('-' :: (ver ++ Gen.distInfoSuffix.toList))
+def dataFolderChars (dn ver : List Char) : List Char := dn ++ ('-' :: (ver ++ Gen.dataFolderSuffix.toList))
 def sdistDirChars (dn ver : List Char) : List Char := dn ++ ('-' :: ver)
 def sdistFileChars (dn ver : List Char) : List Char := dn ++ ('-' :: (ver ++ ".tar.gz".toList))
 
@@ -314,7 +356,7 @@ def sortBy {α : Type} (key : α → PathKey) (xs : List α) : List α :=
 /-- `_copy_module`: `for file in sorted(to_add, key=lambda x: x.path): _add_file(file.path, file.relative_to_target_root())`.
 `root` is the absolute project root every `file.path` starts with. -/
 def copyModuleOps (root : PathKey) (toAdd : List SelFile) : List Op :=
-  (sortBy (fun f => root ++ f.src) toAdd).map fun f => .addFile f.target f.stMode f.digest f.size
+  (if Gen.wheelModuleFilesSorted then sortBy (fun f => root ++ f.src) toAdd else toAdd).map fun f => .addFile f.target f.stMode f.digest f.size
 
 /-- a file script (`convert_script_files`, config order): base name + stat + bytes -/
 structure Script where
@@ -340,7 +382,7 @@ def posix (p : PathKey) : String := joinWith "/" p
 
 /-- `_copy_dist_info`: `for file in sorted(source.glob("**/*"))`, files only, target `dist_info / rel` -/
 def copyDistInfoOps (source : PathKey) (distInfo : String) (files : List DiFile) : List Op :=
-  (sortBy (fun f => source ++ f.rel) files).map fun f =>
+  (if Gen.wheelDistInfoSorted then sortBy (fun f => source ++ f.rel) files else files).map fun f =>
     .addFile (distInfo ++ "/" ++ posix f.rel) f.stMode f.digest f.size
 
 /-- everything `WheelBuilder.build` consumes, with every unordered collection given in *arbitrary* order -/
@@ -417,7 +459,7 @@ def freshTarInfo (name : String) (size : Nat) (digest : String) : TarMeta :=
 /-- `SdistBuilder.build` (no setup.py generation: no build script) -/
 def sdistEntries (sde : Option String) (p : SdistPlan) : List TarMeta :=
   let mt := archiveMtime sde
-  (sortBy (fun f => f.rel) p.files).map (fun f =>
+  (if Gen.sdistFilesSorted then sortBy (fun f => f.rel) p.files else p.files).map (fun f =>
       cleanTarinfo mt { name := p.tarDir ++ "/" ++ posix f.rel, mode := f.mode, uid := f.uid, gid := f.gid,
                         uname := f.uname, gname := f.gname, mtime := f.mtime, size := f.size, digest := f.digest })
   ++ [cleanTarinfo mt (freshTarInfo (p.tarDir ++ "/PKG-INFO") p.pkgInfoSize p.pkgInfoDigest)]
